@@ -43,6 +43,7 @@ ERROR_LEAVES = [
     ("TypeError", '"a" < 1'),
     ("Overflow", "9223372036854775807 + 1 > 0"),
     ("Undeclared", "nope"),
+    ("ValueError-subclass", 'timestamp("bad") == timestamp("bad")'),
 ]
 
 
